@@ -318,6 +318,11 @@ class RegexCompiler:
         max_count = node.max
         greedy = node.greedy
 
+        # Counts are unrolled: even a body that emits nothing costs one loop turn
+        # per repetition, so absurd counts are refused before unrolling starts
+        if max(min_count, max_count) > self.MAX_PROGRAM_SIZE:
+            raise RegExpError("Regular expression too large")
+
         # Check if we need zero-advance detection
         need_advance_check = self._needs_advance_check(node.body)
 
